@@ -15,14 +15,14 @@ import (
 type SiteKind string
 
 const (
-	SColl    SiteKind = "coll"    // collections method on a struct field
-	SIface   SiteKind = "iface"   // interface invoke
-	SDyn     SiteKind = "dyn"     // call of a function value
-	SStatic  SiteKind = "static"  // static call (module or external)
-	SMapSet  SiteKind = "mapset"  // Go map update
-	SMapDel  SiteKind = "mapdel"  // Go map delete
-	SGlobal  SiteKind = "global"  // store to a package-level variable
-	SGo      SiteKind = "go"      // go statement
+	SColl    SiteKind = "coll"     // collections method on a struct field
+	SIface   SiteKind = "iface"    // interface invoke
+	SDyn     SiteKind = "dyn"      // call of a function value
+	SStatic  SiteKind = "static"   // static call (module or external)
+	SMapSet  SiteKind = "mapset"   // Go map update
+	SMapDel  SiteKind = "mapdel"   // Go map delete
+	SGlobal  SiteKind = "global"   // store to a package-level variable
+	SGo      SiteKind = "go"       // go statement
 	SMapIter SiteKind = "maprange" // range over a Go map
 )
 
@@ -47,12 +47,13 @@ func (s *Site) Root() *ssa.Function {
 }
 
 type Effects struct {
-	w     *World
-	Sites []*Site
-	byFn  map[*ssa.Function][]*Site
-	edges map[*ssa.Function][]*ssa.Function
-	reach map[*ssa.Function]map[*ssa.Function]bool
-	impls map[string][]*ssa.Function // iface method full name -> module implementations
+	w         *World
+	Sites     []*Site
+	byFn      map[*ssa.Function][]*Site
+	edges     map[*ssa.Function][]*ssa.Function
+	reach     map[*ssa.Function]map[*ssa.Function]bool
+	impls     map[string][]*ssa.Function // iface method full name -> module implementations
+	implSet   map[*ssa.Function]bool
 	callersOf map[*ssa.Function][]*ssa.Function
 	owners    map[*ssa.Function][]*ssa.Function
 }
@@ -188,10 +189,34 @@ func (w *World) buildEffects() *Effects {
 	for _, fn := range w.Funcs {
 		for _, b := range fn.Blocks {
 			for _, in := range b.Instrs {
+				// a module function used as a value (passed as a callback, stored in a local):
+				// whoever takes the value may call it, so it is an edge for reach and ownership
+				if _, isCall := in.(ssa.CallInstruction); true {
+					for _, op := range in.Operands(nil) {
+						if f2, ok := (*op).(*ssa.Function); ok && f2.Blocks != nil && inScope[f2] {
+							if ci, isC := in.(ssa.CallInstruction); isCall && isC && ci.Common().Value == f2 {
+								continue // the static callee itself: handled below
+							}
+							e.edges[fn] = append(e.edges[fn], f2)
+						}
+					}
+				}
 				switch in := in.(type) {
 				case *ssa.MakeClosure:
 					if t, ok := in.Fn.(*ssa.Function); ok {
 						e.edges[fn] = append(e.edges[fn], t)
+						// a bound method value (x.m used as a function): the synthetic wrapper calls m
+						if t.Synthetic != "" && t.Blocks != nil {
+							for _, tb := range t.Blocks {
+								for _, ti := range tb.Instrs {
+									if ci, ok := ti.(ssa.CallInstruction); ok {
+										if callee := ci.Common().StaticCallee(); callee != nil && callee.Blocks != nil {
+											e.edges[fn] = append(e.edges[fn], callee)
+										}
+									}
+								}
+							}
+						}
 					}
 				case *ssa.Go:
 					e.add(&Site{Fn: fn, Instr: in, Kind: SGo, Pos: in.Pos()})
@@ -269,8 +294,100 @@ func (w *World) buildEffects() *Effects {
 			}
 		}
 	}
+	e.resolveParamReceivers()
 	sort.SliceStable(e.Sites, func(i, j int) bool { return e.Sites[i].Pos < e.Sites[j].Pos })
 	return e
+}
+
+// paramRoot: the parameter a value is (a load / conversion of), if any.
+func paramRoot(v ssa.Value) *ssa.Parameter {
+	for {
+		switch x := v.(type) {
+		case *ssa.Parameter:
+			return x
+		case *ssa.UnOp:
+			if x.Op == token.MUL {
+				v = x.X
+				continue
+			}
+		case *ssa.ChangeType:
+			v = x.X
+			continue
+		case *ssa.MakeInterface:
+			v = x.X
+			continue
+		case *ssa.Alloc:
+			// value parameter spilled to a local cell: `t0 = local T (p); *t0 = p`
+			for _, r := range *x.Referrers() {
+				if st, ok := r.(*ssa.Store); ok && st.Addr == x {
+					if p, ok := st.Val.(*ssa.Parameter); ok {
+						return p
+					}
+				}
+			}
+		}
+		return nil
+	}
+}
+
+// resolveParamReceivers: a collection handed to a generic helper as an argument
+// (`k.increaseSequence(ctx, k.NextL1Sequence)`) is accessed inside the helper through a
+// parameter.  For tables the access belongs to the call site that chose the field: each
+// such site is re-attributed, per static caller, to the caller with the field resolved
+// (one level of context per hop, at most three hops).
+func (e *Effects) resolveParamReceivers() {
+	type pend struct {
+		s     *Site
+		fn    *ssa.Function
+		param *ssa.Parameter
+		hops  int
+	}
+	var work []pend
+	for _, s := range e.Sites {
+		if s.Kind != SColl || s.Field != "" {
+			continue
+		}
+		ci, ok := s.Instr.(ssa.CallInstruction)
+		if !ok || len(ci.Common().Args) == 0 {
+			continue
+		}
+		if p := paramRoot(ci.Common().Args[0]); p != nil {
+			work = append(work, pend{s, s.Fn, p, 0})
+		}
+	}
+	var statics []*Site
+	for _, s := range e.Sites {
+		if s.Kind == SStatic {
+			statics = append(statics, s)
+		}
+	}
+	for len(work) > 0 {
+		w := work[0]
+		work = work[1:]
+		idx := -1
+		for i, p := range w.fn.Params {
+			if p == w.param {
+				idx = i
+			}
+		}
+		if idx < 0 || w.hops > 3 {
+			continue
+		}
+		for _, cs := range statics {
+			if cs.Target != w.fn {
+				continue
+			}
+			args := cs.Instr.(ssa.CallInstruction).Common().Args
+			if idx >= len(args) {
+				continue
+			}
+			if o, f, ok := fieldOf(args[idx]); ok {
+				e.add(&Site{Fn: cs.Fn, Instr: w.s.Instr, Kind: SColl, Owner: typeName(o), Field: f, Method: w.s.Method, Callee: w.s.Callee, Pos: w.s.Pos})
+			} else if p := paramRoot(args[idx]); p != nil {
+				work = append(work, pend{w.s, cs.Fn, p, w.hops + 1})
+			}
+		}
+	}
 }
 
 func (e *Effects) add(s *Site) {
@@ -325,21 +442,27 @@ func (e *Effects) Where(pred func(*Site) bool) []*Site {
 }
 
 // Callers: functions (roots of closures) with a static call to target.
-// Transparent functions are implementation detail: closures, unexported
-// functions / methods, and exported straight-line wrappers (one basic block, e.g.
-// `func (k Keeper) SetX(..) error { return k.X.Set(..) }`).  An effect site inside a
-// transparent function belongs to whoever calls it, so who-may-write / who-may-call
-// tables are indifferent to extracting, inlining or renaming private helpers and
-// to calling a setter wrapper instead of the collection directly.  A transparent
-// function nobody calls (in scope) owns itself.
+// Attribution of effect sites.  Who-may-write / who-may-call tables are expressed over
+// ENTRY POINTS, not over the function that happens to contain the call: an entry point is
+// an implementation of a module-declared interface method (message handlers, queries,
+// bridge hooks, validator-store methods ...) or a function nobody in scope calls (ABCI /
+// genesis / ante / lane entry points, keeper API used by the app).  Everything in between
+// - closures, private helpers, exported setters and wrappers - is transparent, so
+// extracting, inlining, renaming or re-routing helpers never changes a table.  What a
+// helper does on the way is decided by the path rules, which inline it.
 func (e *Effects) Transparent(f *ssa.Function) bool {
 	if f.Parent() != nil {
 		return true
 	}
-	if !token.IsExported(f.Name()) {
-		return true
+	if e.implSet == nil {
+		e.implSet = map[*ssa.Function]bool{}
+		for _, fs := range e.impls {
+			for _, g := range fs {
+				e.implSet[g] = true
+			}
+		}
 	}
-	return len(f.Blocks) == 1
+	return !e.implSet[f]
 }
 
 // staticCallers: module functions containing a static call (or closure creation) of f.
